@@ -164,7 +164,7 @@ type Record struct {
 	HeadSeq  []int    `json:"headseq"` // Head().Height() observed after every step
 	HsSeq    []int    `json:"hsseq"`   // Height() observed after every step
 	Steps    int      `json:"steps"`
-	Cfg      string   `json:"cfg,omitempty"` // free exploration: the generated configuration
+	Cfg      string   `json:"cfg,omitempty"`  // free exploration: the generated configuration
 	Kind     string   `json:"kind,omitempty"` // "" (reader schedules) | stop (C06 free schedules) | c17free | stress
 	Stored   []int    `json:"stored"`         // appended and not wiped since (nil: same as appended)
 	// c17 free schedules
